@@ -171,6 +171,9 @@ def run_case(clause, case, findings, res):
     finally:
         sys.stdout = _so
     res.evaluations += 1
+    _sc = case.get("sc", case) if isinstance(case, dict) else None
+    if isinstance(_sc, dict) and _sc.get("api") == "objects":
+        out.labels.append("configured_through_parameter_objects") if isinstance(out.labels, list) else out.labels.add("configured_through_parameter_objects")
     for lab in out.labels:
         res.labels[lab] = res.labels.get(lab, 0) + 1
     if out.nontrivial:
